@@ -177,18 +177,17 @@ class Cx:
     def divmod_term(self, f, a, b, st):
         """Python floor `//` / `%` of ints with b != 0 on this path."""
         if z3.is_int_value(b):
-            return z3.simplify(f(a, b))
+            return z3.simplify(f(a, b)), None
         key = (a.sexpr(), b.sexpr())
         cache = self.__dict__.setdefault("_dm", {})
         if key not in cache:
             q, r = self.fresh_int("q"), self.fresh_int("r")
             # division theorem: for b != 0 there is exactly one (q, r) with a = q*b + r and r between 0 and b
             fact = z3.And(a == q * b + r, z3.Or(z3.And(0 <= r, r < b), z3.And(b < r, r <= 0)))
-            self.axioms.append(z3.Implies(b != 0, fact))
             self.hints.append("division-witness for (%s) // (%s)" % key)
-            cache[key] = (q, r)
-        q, r = cache[key]
-        return q if f is pyfloordiv else r
+            cache[key] = (q, r, z3.Implies(b != 0, fact))
+        q, r, fact = cache[key]
+        return (q if f is pyfloordiv else r), fact
 
     def map_fn(self, term, var):
         """Function symbol SeqV -> SeqV for `[term(var) for var in S]`, shared by all sites mapping the
@@ -826,8 +825,10 @@ class Interp:
                 return k(VInt(ia * ib), st)
             if isinstance(op, (ast.FloorDiv, ast.Mod)):
                 f = pyfloordiv if isinstance(op, ast.FloorDiv) else pymod
-                return self.cx.branch(st, ib == 0, lambda s1: raise_(s1, "ZeroDivisionError"),
-                                      lambda s2: k(VInt(self.cx.divmod_term(f, ia, ib, s2)), s2))
+                def nz(s2):
+                    t, fact = self.cx.divmod_term(f, ia, ib, s2)
+                    return k(VInt(t), s2.assume(fact) if fact is not None else s2)
+                return self.cx.branch(st, ib == 0, lambda s1: raise_(s1, "ZeroDivisionError"), nz)
         if isinstance(a, VStr) and isinstance(op, ast.Mod):
             return k(VStr(), st)       # message formatting: opaque text
         if isinstance(a, VStr) and isinstance(b, VStr) and isinstance(op, ast.Add):
